@@ -685,7 +685,19 @@ class CFG:
         return cache[e.id]
 
     def fact_keys_at(self, n):
-        return {f.key() for f in self.facts_at(n)}
+        """keys of the facts that hold whenever ``n`` runs: those of the dominating branch edges (with flags and explaining variables
+        read through) and those that hold on every path into ``n`` without one dominating test (the same guard written out in both
+        arms of an earlier if - forward must-dataflow, dataflow.must_facts)"""
+        out = {f.key() for f in self.facts_at(n)}
+        mf = self.__dict__.get('_must')
+        if mf is None:
+            from .dataflow import must_facts
+            try:
+                mf = must_facts(self, stmt_gens=False)
+            except RecursionError:
+                mf = {}
+            self.__dict__['_must'] = mf
+        return out | set(mf.get(n.id, ()))
 
     def facts_at_expr(self, n, sub):
         """Facts holding when sub-expression ``sub`` of node ``n`` is evaluated: the
